@@ -566,6 +566,11 @@ def c09_system_exit_leaves_the_scope_open():
     return after == before, dict(outcome=outcome, before=before, after=after)
 
 
+def c14_directive_between_shared_label_do_statements():
+    """D64"""
+    return _only_syntax_error_free("subroutine w(a, n)\n  integer n, i, j\n  real a(n, n)\n  do 10 i = 1, n\n#define N 3\n  do 10 j = 1, n\n    a(i, j) = 0\n10 continue\nend subroutine w\n")
+
+
 def c14_directive_backslash_at_eof():
     """D9: a directive whose last line ends in a backslash at end of input is lost"""
     r = _reader("x = 1\n#define X \\\n")
